@@ -124,6 +124,25 @@ def poly(ctx, f, e, depth=0):
         if d is not None and isinstance(d, (ast.BinOp, ast.Subscript, ast.Name)):
             return poly(ctx, f, d, depth + 1)
         return {(e.id,): 1}
+    if isinstance(e, ast.Call) and ctx is not None:
+        # a repo helper that only picks a term by a constant argument
+        # (`self.getElem(rank, "elem")`): the term it picks
+        from .. import symcase
+
+        def consts(t):
+            if isinstance(t, ast.Compare) and len(t.ops) == 1 and \
+                    isinstance(t.left, ast.Constant) and \
+                    isinstance(t.comparators[0], ast.Constant) and \
+                    isinstance(t.ops[0], (ast.Eq, ast.NotEq)):
+                same = t.left.value == t.comparators[0].value
+                return same if isinstance(t.ops[0], ast.Eq) else not same
+            return None
+        try:
+            res = symcase.Evaluator(ctx, consts).inline_call(f, e, {})
+        except Exception:
+            res = None
+        if res is not None:
+            return poly(ctx, f, res, depth + 1)
     # a subscripted temporary (`rank_spec['pbits']`) reads as what it holds
     t = pat.inline(ctx, f, e) if isinstance(e, ast.Subscript) else text(e)
     return {(t.replace(" ", "").replace('"', "'"),): 1}
